@@ -323,3 +323,27 @@ def validate_models():
             assert real(lab) == m, lab
             n += 1
     return n
+
+
+def make_driver(layer, ctx):
+    """sansio.Driver that records SendData payloads as they are (possibly SymBytes) instead of copying
+    them into a bytearray (which would enumerate every symbolic octet)"""
+    from mitmproxy.proxy import commands
+    from . import sansio
+
+    class SymDriver(sansio.Driver):
+        def __init__(self, l, c):
+            super().__init__(l, c)
+            self.raw = []  # (connection, payload) in order
+
+        def _exec(self, cmd):
+            if isinstance(cmd, commands.SendData):
+                self.trace.append(cmd)
+                self.raw.append((cmd.connection, cmd.data))
+                return
+            super()._exec(cmd)
+
+        def raw_to(self, conn):
+            return [d for c, d in self.raw if c is conn]
+
+    return SymDriver(layer, ctx)
